@@ -1,4 +1,5 @@
 import Bmc.Proofs.C13
+import Bmc.Proofs.EndToEnd.ContextC13
 #print axioms Bmc.Proofs.C13.returns_by_deadline
 #print axioms Bmc.Proofs.C13.expired_context
 #print axioms Bmc.Proofs.C13.no_false_success
@@ -8,3 +9,7 @@ import Bmc.Proofs.C13
 #print axioms Bmc.Proofs.C13.expired_context_composite
 #print axioms Bmc.Proofs.C13.timing_facts
 #print axioms Bmc.Proofs.C13.context_pass_through
+#print axioms Bmc.Proofs.EndToEnd.generated_session_loop_stops_with_context
+#print axioms Bmc.Proofs.EndToEnd.generated_session_loop_expired_context
+#print axioms Bmc.Proofs.EndToEnd.slExpected_le
+#print axioms Bmc.Proofs.EndToEnd.generated_sessionless_loop_stops_with_context
